@@ -30,6 +30,17 @@ try)
   RC=$?
   git -C "$D/repo" reset -q --hard HEAD
   grep -E "^VIOLATION|^KNOWN-FINDING|\[done\]" "$D/try_$ID.log" | cut -c1-240
+  # kinds of the violations (from the replay files), so that a harness that no longer builds is told apart from a catch
+  python3 - "$D/try_$ID.log" <<'PY'
+import json,re,sys,collections
+k=collections.Counter()
+for l in open(sys.argv[1],errors='replace'):
+    m=re.match(r'VIOLATION property=\S+ replay=(\S+)',l)
+    if m:
+        try: d=json.load(open(m.group(1))); k[d.get('kind','?')+(':'+d.get('id','') if d.get('id') else '')]+=1
+        except Exception: k['unreadable']+=1
+print('kinds:', ', '.join(f'{a} x{b}' for a,b in k.items()))
+PY
   echo "check exit=$RC" ;;
 rm)
   git -C /repo worktree remove --force "$D/repo" 2>/dev/null; rm -rf "$D"; git -C /repo worktree prune ;;
